@@ -694,6 +694,8 @@ def _evidence(v, names):
 def _known_c17(a, name):
   if name == "CheckWeakECPrivateKey" and a.get("fam") == "overshoot":
     return "batchdl_overshoot_zone"
+  if name in TABLE_MONOTONE and a.get("fam") == "far_diff":
+    return "smalldiff_beyond_max_diff"
   return None
 
 
@@ -746,7 +748,8 @@ def _judge_c17_history(plan, op, ev, arts, batch, is_all, cname, cfg, seen_v,
             viol.append(_viol("C17", "joint_verdict_lost", i, name,
                               "%s flagged pool[%d] at step %d but not at step "
                               "%d on the same batch" %
-                              (name, batch[pos], p_step, i)))
+                              (name, batch[pos], p_step, i),
+                              _known_c17(arts[pos], name)))
         else:
           viol.append(_viol("C17", "joint_verdict_differs", i, name,
                             "%s on the same batch gives %s at step %d and %s "
@@ -825,7 +828,8 @@ def _judge_c17_fresh(plan, q, fr, ev_by_i, viol, st, probe):
             viol.append(_viol(
                 "C17", "joint_verdict_lost", i, name,
                 "%s flags pool[%d] in a fresh process (%s) but not after the "
-                "history" % (name, op["batch"][spos], rel)))
+                "history" % (name, op["batch"][spos], rel),
+                _known_c17(a, name)))
         else:
           viol.append(_viol(
               "C17", "joint_verdict_differs", i, name,
